@@ -292,9 +292,9 @@ theorem C07_concurrent (acts : List Conc.Act) (i t : Nat) (o : Out)
     let σ := Conc.exec {} acts
     let th := σ.thr i
     -- the commit's own log entry, between call and return, carries the returned answer …
-    (th.invAt < th.witAt ∧ th.witAt ≤ σ.lin.length ∧ σ.lin[th.witAt - 1]? = some (i, .commit t, o)) ∧
+    (th.invAt < th.witAt ∧ th.witAt ≤ σ.lin.length ∧ σ.lin[th.witAt - 1]? = some (i, .op (.commit t), o)) ∧
     -- … and the whole log is a specification history
-    (Spec.run {} (Conc.linOps σ.lin)).2 = Conc.linOuts σ.lin :=
+    (Spec.run {} (opsOf (Conc.linOps σ.lin))).2 = Conc.linOuts σ.lin :=
   ⟨C06.C06_write_linearizable acts i (.commit t) o hret hop rfl, (C06.C06_log_is_spec_history acts).1⟩
 
 end FsDb.C07
